@@ -357,3 +357,27 @@ package db
 //@   ensures [C05 delete.kek-unused] kekUses == old(kekUses)
 //@   at call deleteSecret: assert [C14 delete.locked] db.mu
 //@   at call deleteSecret: assert [C06 delete.logged-before-effect] auditLog == snoc(old(auditLog), evC(caller, "delete", name, 0, true))
+
+//@ pred listedOK(db *DB, caller Caller, x *api.SecretInfo) { x != nil && has(db.kv.secrets, x.Name) && allows(caller.Permissions, "info", x.Name) &&
+//@      x.ActiveVersion == db.kv.secrets[x.Name].ActiveVersion }
+//@ func (*DB).List(db, caller) (ret, err)
+//@   requires dbInv(db)
+//@   ensures [C02,C03,C14 list.inv] dbInv(db)
+//@   ensures [C01,C02 list.noeffect] noEffect(db)
+//@   ensures [C06 list.trail] auditLog == old(auditLog) || auditLog == snoc(old(auditLog), evC(caller, "info", "", 0, true))
+//@   ensures [C06 list.logged] err == nil ==> auditLog == snoc(old(auditLog), evC(caller, "info", "", 0, true))
+//@   ensures [C06 list.failclosed] err != nil ==> ret == nil
+//@   ensures [C01 list.sound] err == nil ==> (forall j int :: (0 <= j && j < len(ret)) ==> listedOK(db, caller, ret[j]))
+//@   ensures [C01 list.complete] err == nil ==> (forall n string :: (has(db.kv.secrets, n) && allows(caller.Permissions, "info", n)) ==>
+//@        (exists j int :: 0 <= j && j < len(ret) && ret[j] != nil && ret[j].Name == n))
+//@   at call list: assert [C14 list.locked] db.mu
+//@   at call info: assert [C14 list.info-locked] db.mu
+//@   at call list: assert [C06 list.logged-before-read] auditLog == snoc(old(auditLog), evC(caller, "info", "", 0, true))
+//@   loop 0
+//@     invariant [bound] 0 <= iter && iter <= len(call_list)
+//@     invariant [sound] forall j int :: (0 <= j && j < len(ret)) ==> listedOK(db, caller, ret[j])
+//@     invariant [complete] forall k int :: (0 <= k && k < iter && allows(caller.Permissions, "info", call_list[k])) ==>
+//@        (exists j int :: 0 <= j && j < len(ret) && ret[j] != nil && ret[j].Name == call_list[k])
+//@     invariant [names] (forall k int :: (0 <= k && k < len(call_list)) ==> has(db.kv.secrets, call_list[k])) &&
+//@        (forall n string :: has(db.kv.secrets, n) ==> (exists k int :: 0 <= k && k < len(call_list) && call_list[k] == n))
+//@     invariant [state] db.mu && db != nil && db.kv != nil && wf(db.kv) && noEffect(db) && auditLog == snoc(old(auditLog), evC(caller, "info", "", 0, true))
